@@ -13,7 +13,7 @@
 //     in one transition, the goroutine's log line is appended in a later one.
 //  Which parked partner is served is unspecified by the language: any.
 
-const K = { send: 0, recv: 1, recv2: 2, close: 3, select: 4, range: 5, len: 6, gosched: 7, goexit: 8, numg: 9, spawn: 10 };
+const K = { send: 0, recv: 1, recv2: 2, close: 3, select: 4, range: 5, len: 6, gosched: 7, goexit: 8, numg: 9, spawn: 10, goexitd: 11 };
 
 function initState(sc) {
   return {
@@ -120,6 +120,11 @@ function finishOp(sc, t, gi, op, p, res) {
     case K.select:
       g.pend = p.send ? ('sel' + p.idx + ':s') : ('sel' + p.idx + ':' + res.v + ',' + (res.ok ? 't' : 'f'));
       g.pc++;
+      break;
+    case K.goexitd:
+      // the deferred receive of a goroutine that called runtime.Goexit(): afterwards the goroutine is over
+      g.pend = 'dr' + res.v + ',' + (res.ok ? 't' : 'f');
+      g.pc = sc.gor[gi].length;
       break;
   }
 }
@@ -263,6 +268,23 @@ function stepOp(sc, s, gi, op, out) {
       const t = clone(s);
       t.g[gi].pend = 'x';
       t.g[gi].after = 'exit';
+      out.push(t);
+      return;
+    }
+    case K.goexitd: {
+      // logs "x", calls runtime.Goexit() in a frame whose deferred function receives from channel c
+      if (!g.xd) {
+        const t = clone(s);
+        t.g[gi].pend = 'x';
+        t.g[gi].xd = true;
+        out.push(t);
+        return;
+      }
+      const p = { send: false, c: op.c, v: 0, idx: 0 };
+      if (canProceed(s, p)) { perform(sc, s, gi, op, p, out); return; }
+      const t = clone(s);
+      t.g[gi].st = 'park';
+      t.g[gi].park = [p];
       out.push(t);
       return;
     }
